@@ -221,4 +221,12 @@ def expand(fnode, expr, max_depth=8, helpers=False):
                 return r[0]
             return n
 
-    return Sub(0, frozenset()).visit(clone(expr))
+    out = Sub(0, frozenset()).visit(clone(expr))
+    # substitution can create spellings that the canonical form would have rewritten (np.tile(np.array([..]), n), ...): normalise again
+    from .normalize import _n4, _n5
+
+    holder = ast.Expression(body=out)
+    holder = _n5(holder)
+    _n4(holder)
+    ast.fix_missing_locations(holder)
+    return holder.body
